@@ -48,8 +48,10 @@ PATTERNS = [
     (r"^prj/(?P<name>[a-z]+)\.zo$", "proj.zot"),
     (r"^prj/.*$", "plain.zot"),
     (r".*_plain\.zo$", "plain.zot"),
+    (r"journal/(?P<date>[0-9]{8})\.zo$", "day.zot"),     # not anchored at the start: must match from the beginning of the relative path
+    (r"prj", "plain.zot"),
 ]
-TARGETS = ["2024/20240229.zo", "2024/notes.zo", "prj/alpha.zo", "prj/Beta.zo", "misc/other.zo", "x_plain.zo", "2023/20231231", "prj/gamma"]
+TARGETS = ["journal/20240301.zo", "archive/journal/20240301.zo", "old/prj/alpha.zo", "2024/20240229.zo", "2024/notes.zo", "prj/alpha.zo", "prj/Beta.zo", "misc/other.zo", "x_plain.zo", "2023/20231231", "prj/gamma"]
 
 
 def check_case(pat_idx, target, existing, overwrite, var_map, explicit):
@@ -121,7 +123,7 @@ def configurations(tier, seed):
             fails.append({**case, "error": err})
         if i < 2:
             samples.append(case)
-    return {"name": "configurations", "bound": f"{n} random (pattern map of 0-4 of 5 overlapping patterns in random order, 8 targets incl. sub-directories and extension-less names, existing / empty / missing target, overwrite flag, 4 variable maps, explicit template or none)",
+    return {"name": "configurations", "bound": f"{n} random (pattern map of 0-4 of 7 overlapping patterns (two of them not anchored) in random order, 11 targets incl. sub-directories and extension-less names, existing / empty / missing target, overwrite flag, 4 variable maps, explicit template or none)",
             "evaluations": n, "distinct_nontrivial": nontriv, "failures": fails, "samples": samples, "replay_fn": "replay_case"}
 
 
